@@ -548,6 +548,7 @@ impl Schedule {
 //@item solution/src/schedule.rs Schedule::number_of_vehicles_of_same_type_spawned_at : trusted
 //@retname r
 //@sig
+    requires spawned_of_type(self.depot_usage@, depot, vehicle_type) <= u32::MAX,
     ensures r == spawned_of_type(self.depot_usage@, depot, vehicle_type),
 //@end
 
